@@ -183,3 +183,13 @@ def count_true(bs):
 
 def is_symbolic(x):
     return hasattr(x, "var")
+
+
+def sub(x, y):
+    return add(x, mul(-1, y))
+
+
+def close(x, y, tol=1e-9):
+    """|x - y| <= tol: equality of a float result with its exact (real) closed form up to rounding."""
+    d = sub(x, y)
+    return b_and(le(d, tol), le(mul(-1, d), tol))
